@@ -342,7 +342,7 @@ class Harness:
 
             def w(self_: Any, *a: Any, **kw: Any) -> Any:
                 H.control_thread = self_ if cls is tctl.ControlThread else H.control_thread
-                s.log(label + "_call")
+                s.log(label + "_call", "", ptime._time_controller.time())
                 try:
                     r = orig(self_, *a, **kw)
                 except SchedAbort:
@@ -351,6 +351,7 @@ class Harness:
                     s.log(label + "_raise", "", type(e).__name__)
                     raise
                 s.log(label + "_ret", "", r if isinstance(r, (bool, type(None))) else str(r))
+                s.log("sysclock", label + "_ret", ptime._time_controller.time())
                 return r
             self._patch(cls, name, w)
         wrap_method(tctl.ControlThread, "try_pause", "try_pause")
@@ -382,6 +383,7 @@ class Harness:
             H.saves.append({"path": str(p), "files": H.read_tree(Path(p)),
                             "event_index": len(s.events)})
             s.log("save_end", Path(p).name)
+            s.log("sysclock", "save_end", ptime._time_controller.time())
             return p
         self._patch(sp.StateStore, "save_state", save_w)
 
